@@ -37,7 +37,7 @@ def plan(tier):
 def floors(tier):
     return {"nontrivial": 12, "counter:fits": 100, "counter:truth_clause_checks": 20, "counter:box_checks": 100, "counter:no_worse_checks": 80,
             "counter:active_bound_fits": 15, "class:Square": 8, "class:Normal": 5, "class:Gamma": 3,
-            "counter:zero_bound_fits": 20, "counter:zero_bound_active": 5}
+            "counter:zero_bound_fits": 20, "counter:sibling_calls": 30, "class:x0-ndarray-shared": 15, "counter:zero_bound_active": 5}
 
 
 def run_case(rng, idx, tier, lane, ctx):
@@ -76,8 +76,12 @@ def run_case(rng, idx, tier, lane, ctx):
         d.update(kw)
         wit.append(d)
 
+    if LC.share_caller_arrays(rng, c):
+        cls.append("x0-ndarray-shared")
     try:
         obj = LC.make_loss(c)
+        if c.x0_as_array:
+            counters["sibling_calls"] = LC.disturb_with_sibling(rng, c)
     except Exception as e:
         return {"status": "violated", "sample": sample, "counters": counters, "classes": cls,
                 "witnesses": [{"what": "loss constructor raised on a valid case", "loss": c.kind, "error": short_exc(e), "tb": tb_tail(e)}]}
@@ -122,6 +126,11 @@ def run_case(rng, idx, tier, lane, ctx):
             with contextlib.redirect_stdout(io.StringIO()), np.errstate(all="ignore"):
                 xh = np.asarray(obj.fit(list(start), lb=lo if label != "zero-bound" else list(lo), ub=hi if label != "zero-bound" else list(hi)), dtype=float)
         except Exception as e:
+            if type(e).__name__ == "IntegrationError":
+                # an explicit refusal: the optimiser visited a point of the box at which the model's solution blows up before the last
+                # observation time (seen on catalogue models with a 10-fold box); nothing is returned, nothing can be judged
+                counters["fit_refused_integration_error"] = counters.get("fit_refused_integration_error", 0) + 1
+                continue
             counters["fit_raised"] += 1
             bad("fit raised", start=label, error=short_exc(e), tb=tb_tail(e))
             continue
@@ -153,6 +162,8 @@ def run_case(rng, idx, tier, lane, ctx):
             counters["truth_clause_checks"] += 1
             if not np.linalg.norm(xh - th) <= 1e-6 * (1 + np.linalg.norm(th)):
                 bad("fit started at the generating parameters of noise-free data did not return them", returned=xh.tolist(), truth=th.tolist())
+    if not np.array_equal(c.x0_array, np.array(c.x0, dtype=float)):
+        bad("the caller's initial-value array was modified in place", now=c.x0_array.tolist(), original=list(c.x0))
     res = {"status": "violated" if wit else "held", "nontrivial": nontriv, "key": canon_hash(sample), "classes": sorted(set(cls)),
            "counters": counters, "sample": sample}
     if wit:
